@@ -4,7 +4,9 @@ import itertools
 import random
 
 T = lambda s: [ord(c) for c in s]  # noqa: E731
-SEGS = [".", "..", "", "a", ".a", "a.", "..a", "...", "a.b", "%2E", "%2e%2E", ".%2E", "%2e", "b%2Fc", "é"]
+SEGS = [".", "..", "", "a", ".a", "a.", "..a", "...", "a.b", "%2E", "%2e%2E", ".%2E", "%2e", "b%2Fc", "é",
+        # dot segments once the quoter has dropped a lone surrogate
+        ".\udc80", "\udc80.", ".\udc80.", "..\udfff", "\ud800"]
 BASES = ["http://h", "http://h/", "http://h/x", "http://h/x/", "http://h/x/y", "http://h/x//", "http://h/%2Fz/w%20v", "//h/x",
          "/x/y", "x/y", "", "file:///x/y", "mailto:x/y", "http://[::1]:81/x/y/"]
 
@@ -38,9 +40,13 @@ def gen(params):
             prog = [{"op": "ctor", "s": T(base + sep + p), "encoded": False}]
         elif r < 0.35:
             kw = {"path": T(("/" if rnd.random() < 0.8 else "") + p)}
-            if rnd.random() < 0.8:
+            r2 = rnd.random()
+            if r2 < 0.6:
                 kw["host"] = T("h")
                 kw["scheme"] = T("http")
+            elif r2 < 0.8:        # an authority given as such, with and without a host part, any scheme
+                kw["authority"] = T(rnd.choice(["h", "user@", ":8080", "u:p@:81", "u@h:1", "[::1]"]))
+                kw["scheme"] = T(rnd.choice(["foo", "http", "x", ""]))
             prog = [{"op": "build", "kw": kw}]
         elif r < 0.5:
             prog = [{"op": "ctor", "s": T(base), "encoded": False},
